@@ -1,9 +1,9 @@
 ---------------------------- MODULE MC_BackendReq ----------------------------
 EXTENDS BackendReqChannel, Json, Sequences, FiniteSets
 CONSTANT MaxDepth
-VARIABLES st, hist, acks, reqs
+VARIABLES st, hist, acks, reqs, base
 
-vars == <<st, hist, acks, reqs>>
+vars == <<st, hist, acks, reqs, base>>
 
 \* --- hostile-input stimuli (C06): one deviation per case --------------------------------
 ServerVariants(k) ==
@@ -12,7 +12,7 @@ ServerVariants(k) ==
     \cup (IF k \in {6, 7, 8} THEN {"body.nil", "body.max"} ELSE {"body.len0", "body.fd_wrap", "body.shm_wrap", "body.flags_undef"})
     \cup (IF k \in {8, 9} THEN {"nfds.0"} ELSE {"nfds.1"})
 AckMutations == {"code+1", "code=0", "code=999", "flag-reply", "ver0", "ver2", "resv", "size-1", "size_field>max",
-                 "body_short", "fds+1", "random", "silent"}
+                 "body_short", "fds+1", "random", "silent", "val=2^32", "val=2^63", "val=-2^32"}
 F(f, b) == [t |-> "flag", f |-> f, b |-> b, k |-> 0, r |-> ""]
 \* the one body-less request the server serves (CONFIG_CHANGE_MSG = 2): only header mutations apply
 ConfigChangeVariants == {"flags.reply", "flags.ver0", "flags.ver2", "flags.resv", "size.long", "size.over", "nfds.1", "nfds.2"}
@@ -25,24 +25,30 @@ Hostile ==
           PrintT(<<"HCASE", ToJson([mode |-> "rawpeer", steps |-> <<F("so", TRUE), F("sh", TRUE), F("hra", TRUE), F("ra", TRUE),
                                                                    [t |-> "req", k |-> k, r |-> "zero", peer |-> p]>>])>>)
 
-Init == st = BeInit /\ hist = <<>> /\ acks = <<>> /\ reqs = <<>> /\ Hostile
+\* A history starts from any consistent setting of the four flags (reached by a prefix of flag letters that does not count
+\* towards the depth): switching a setting off again, or on late, is then within reach of short histories.
+FlagOrder == <<"hra", "so", "sh", "ra">>
+Prefix(s0) == LET Rec(i) == IF s0[FlagOrder[i]] THEN <<F(FlagOrder[i], TRUE)>> ELSE <<>> IN Rec(1) \o Rec(2) \o Rec(3) \o Rec(4)
+Init == /\ \E s0 \in [ra : BOOLEAN, so : BOOLEAN, sh : BOOLEAN, hra : BOOLEAN] :
+             Consistent(s0) /\ st = s0 /\ hist = Prefix(s0) /\ base = Len(Prefix(s0))
+        /\ acks = <<>> /\ reqs = <<>> /\ Hostile
 
 SetFlag(f, b) ==
-    /\ st[f] # b /\ Len(hist) < MaxDepth
+    /\ st[f] # b /\ Len(hist) < MaxDepth + base
     /\ Consistent([st EXCEPT ![f] = b])
     /\ st' = [st EXCEPT ![f] = b]
     /\ hist' = Append(hist, [t |-> "flag", f |-> f, b |-> b, k |-> 0, r |-> ""])
-    /\ UNCHANGED <<acks, reqs>>
+    /\ UNCHANGED <<acks, reqs, base>>
 
 Req(k, r) ==
     LET e == BeExpect(st, k, r)
         h2 == Append(hist, [t |-> "req", f |-> "", b |-> FALSE, k |-> k, r |-> r]) IN
-    /\ Len(hist) < MaxDepth
+    /\ Len(hist) < MaxDepth + base
     /\ hist' = h2
     /\ acks' = IF e.ack # "none" THEN Append(acks, k) ELSE acks
     /\ reqs' = IF e.wire /\ st.ra THEN Append(reqs, k) ELSE reqs
-    /\ PrintT(<<"CASE", ToJson([steps |-> h2])>>)
-    /\ UNCHANGED st
+    /\ PrintT(<<"CASE", ToJson([steps |-> h2, base |-> base])>>)
+    /\ UNCHANGED <<st, base>>
 
 Next == (\E f \in {"ra", "so", "sh", "hra"}, b \in BOOLEAN : SetFlag(f, b))
         \/ (\E k \in BeKinds, r \in BeResults : Req(k, r))
